@@ -174,37 +174,39 @@ def load (s : FS) (oid : Nat) : Except Err (Bytes × Nat) :=
       | some d => .ok (d, h.tid)
       | none => .error .keyError
 
-/-- loop of `loadSerial`: `if h.tid == serial: break; pos = h.prev; if h.tid < serial or not pos: raise` -/
-def loadSerialGo (serial : Nat) : List (FTxn × DRec) → Option DRec
+/-- loop of `loadSerial` over the visited records (`tidOf` reads `h.tid`):
+    `if h.tid == serial: break; pos = h.prev; if h.tid < serial or not pos: raise` -/
+def loadSerialGo {α : Type} (tidOf : α → Nat) (serial : Nat) : List α → Option α
   | [] => none
-  | (_, h) :: rest =>
-    if h.tid = serial then some h
-    else if h.tid < serial then none
-    else loadSerialGo serial rest
+  | h :: rest =>
+    if tidOf h = serial then some h
+    else if tidOf h < serial then none
+    else loadSerialGo tidOf serial rest
 
 /-- `loadSerial(oid, serial)` -/
 def loadSerial (s : FS) (oid serial : Nat) : Except Err Bytes :=
   let pos := idxGet s.index oid
   if pos = 0 then .error .keyError
-  else match loadSerialGo serial (chain s.log pos) with
+  else match loadSerialGo (fun th => th.2.tid) serial (chain s.log pos) with
     | none => .error .keyError
-    | some h =>
+    | some (_, h) =>
       match recData s.log h with
       | some d => .ok d
       | none => .error .keyError
 
-/-- loop of `loadBefore`: `if h.tid < tid: break; pos = h.prev; end_tid = h.tid; if not pos: return None` -/
-def loadBeforeGo (b : Nat) : Option Nat → List (FTxn × DRec) → Option (DRec × Option Nat)
+/-- loop of `loadBefore` over the visited records (`tidOf` reads `h.tid`):
+    `if h.tid < tid: break; pos = h.prev; end_tid = h.tid; if not pos: return None` -/
+def loadBeforeGo {α : Type} (tidOf : α → Nat) (b : Nat) : Option Nat → List α → Option (α × Option Nat)
   | _, [] => none
-  | e, (_, h) :: rest => if h.tid < b then some (h, e) else loadBeforeGo b (some h.tid) rest
+  | e, h :: rest => if tidOf h < b then some (h, e) else loadBeforeGo tidOf b (some (tidOf h)) rest
 
 /-- `loadBefore(oid, tid)` -/
 def loadBefore (s : FS) (oid b : Nat) : Except Err (Option (Bytes × Nat × Option Nat)) :=
   let pos := idxGet s.index oid
   if pos = 0 then .error .keyError
-  else match loadBeforeGo b none (chain s.log pos) with
+  else match loadBeforeGo (fun th => th.2.tid) b none (chain s.log pos) with
     | none => .ok none
-    | some (h, e) =>
+    | some ((_, h), e) =>
       match recData s.log h with
       | some d => .ok (some (d, h.tid, e))
       | none => .error .keyError
@@ -589,7 +591,7 @@ structure StagedInv (s : FS) (st : Staged) : Prop where
   tid : s.ltid < st.tid
   ts : st.tid = s.ts
   status : statusOk st.status
-  tindex : ∀ oid, idxGet st.tindex oid = ((lastRecIn (s.pos + st.thl) st.recs oid).map (·.2)).getD 0
+  tindex : st.tindex = (withPos (s.pos + st.thl) st.recs).map fun rp => (rp.1.oid, rp.2)
 
 structure Inv (s : FS) : Prop where
   log : LogInv s.log
